@@ -649,7 +649,13 @@ pub fn gen_seq(src: &mut Src<'_>, cfg: &SeqCfg) -> SeqCase {
 					_ => KindTag::Ref,
 				};
 				let members = gen_member_list(src, &world, 4);
-				let then = if src.chance(128) { TempThen::IntoChild } else { TempThen::Drop };
+				let then = match src.pick(6) {
+					0 | 1 => TempThen::Drop,
+					2 => TempThen::IntoChild,
+					3 => TempThen::IntoIter,
+					4 => TempThen::Inspect,
+					_ => TempThen::Borrow,
+				};
 				Step::TempColl { kind, members, then }
 			}
 		};
